@@ -105,6 +105,7 @@ def run(res):
     evals = 0
     distinct = set()
     skipped = 0
+    timeouts = 0
     for i, src in enumerate(srcs):
         lines = [r[i] if i < len(r) else None for r in runs]
         if any(l is None for l in lines):
@@ -112,6 +113,11 @@ def run(res):
             continue
         if lines[0].startswith("SKIP"):
             skipped += 1
+            continue
+        if any(l.startswith("TIMEOUT") for l in lines):
+            # the program runs into the evaluation's time budget (e.g. a loop that extends the list it ranges over):
+            # what it has done by then depends on the clock
+            timeouts += 1
             continue
         evals += nproc * nrep * 2
         distinct.add(src)
@@ -141,6 +147,7 @@ def run(res):
     cov["samples"] = [{"source": srcs[-1], "digests": runs[0][len(srcs) - 1]}]
     cov["map_range_sites"] = nsites
     cov["skipped_not_parsing"] = skipped
+    cov["skipped_time_budget"] = timeouts
     res.assumptions += [
         "rand, time and goroutine scheduling are excluded by the property; the corresponding modules are removed from the globals",
         "the hand classification of the map-range sites (coq/model/MapSites.v) is trusted; the obligation only guarantees that no site is unclassified",
